@@ -21,3 +21,4 @@ def run(prog, rep):
     _rb.run_filters(prog, rep)
     from ..rules import r_order as _ro2
     _ro2.run_attr_search(prog, rep)
+    _ro2.run_identity(prog, rep)
